@@ -5,7 +5,7 @@
    request: at most one delivery per send); crash = [ECrash]. [hasm s T] = T's mutations were logged,
    [classic s T] = T never used async commit / 1PC (then no resolve of T can be derived from the
    CheckSecondaryLocks fold: Inv.classic_flags). [F s T FTold] = 1 / 2 / 3 for Commit returning nil / undetermined / error. *)
-From Verif Require Import Percolator.Async8 Percolator.Closed Percolator.Trace Percolator.ProofsTrace Percolator.AddKeys Percolator.Heartbeat.
+From Verif Require Import Percolator.Mixed2 Percolator.Trace Percolator.ProofsTrace Percolator.AddKeys Percolator.Heartbeat.
 From Coq Require Import Sorting.Sorted Permutation.
 
 (* ---------------- C02: crash atomicity (classic 2PC, optimistic and pessimistic prewrite) ---------------- *)
@@ -115,10 +115,11 @@ Proof.
 Qed.
 Print Assumptions C02_atomic_async_extension.
 
-(* what is NOT covered: transactions that fall back (async commit -> 2PC, 1PC -> async commit / 2PC: the owner sent a
-   prewrite without the flag, a prewrite reply or delivery carried min-commit 0 / one-pc ts 0, or a resolver forced the
-   fallback through CheckTxnStatus). For them only the request-stream rules (C04_accept_sound), the told-err guard and the
-   stability of the store's records are proved: *)
+(* what is NOT covered by C02_atomic / _onepc / _async / _fallback: a transaction that left async commit / 1PC although no
+   locked mutation ever got a non-async lock (min-commit 0 answered only for already committed keys or for a request that
+   locks nothing; a 1PC request answered "not committed" with a positive min-commit ts), or in which a request was applied
+   as 1PC after the owner gave 1PC up. For them only the request-stream rules (C04_accept_sound), C02_fallback_owner_closed
+   and the stability of the store's records are proved: *)
 Theorem C02_atomic_fallback_partial : forall evs s T evs' s' k, run evs = Some s -> run_from s evs' = Some s' ->
   (forall c, kget s T k = Committed c -> kget s' T k = Committed c) /\ (kget s T k = RolledBack -> kget s' T k = RolledBack).
 Proof.
@@ -146,6 +147,41 @@ Proof.
   - intros r c ks Hi Hp. rewrite <- Ep in Hp. apply (pc_okd _ _ P' Hm' _ _ _ Hi Hp). exact Z.
 Qed.
 Print Assumptions C02_fallback_owner_closed.
+
+(* ---- fallen back to (or never left) two-phase commit: [mixed s T] = mutations logged, some locked mutation holds
+   or held a lock that is NOT an async-commit lock (its prewrite was answered min-commit 0: ghost map [lamk] = Some 0),
+   and no prewrite request was applied as a one-phase commit ([no1pc]). The other keys may hold async-commit locks
+   written before the fallback. Then the owner cannot have kept async commit and no resolver can commit through the
+   CheckSecondaryLocks fold (a resolver that meets the non-async lock must force CheckTxnStatus on the primary):
+   the transaction is a 2PC transaction for everybody. Classic transactions are the special case "all locks non-async". *)
+Theorem C02_atomic_fallback : forall evs s T, run evs = Some s -> mixed s T ->
+  (forall k1 k2 c1 c2, kget s T k1 = Committed c1 -> kget s T k2 = Committed c2 -> c1 = c2) /\
+  (forall k1 k2 c, kget s T k1 = Committed c -> In k2 (lm s T) -> kget s T k2 <> RolledBack) /\
+  (forall k c, kget s T k = Committed c -> kget s T (prim s T) = Committed c /\
+     forall k', In k' (lm s T) -> kget s T k' = Committed c \/ exists m, kget s T k' = Locked m) /\
+  (F s T FTold = 1 -> exists c, kget s T (prim s T) = Committed c /\
+     forall evs' s', run_from s evs' = Some s' -> F s' T FTold = 1 /\ kget s' T (prim s' T) = Committed c) /\
+  (F s T FTold = 3 -> forall evs' s', run_from s evs' = Some s' -> no1pc s' T ->
+     F s' T FTold = 3 /\ forall k c, kget s' T k <> Committed c).
+Proof.
+  intros evs s T R Mx. pose proof (full_run _ _ R) as Fs. split; [| split; [| split; [| split]]].
+  - exact (mx_one_ts s T Fs Mx).
+  - exact (mx_all_or_nothing s T Fs Mx).
+  - intros k c Hk. assert (HP : kget s T (prim s T) = Committed c).
+    { destruct Fs as [_ [_ [_ [_ [_ [_ [_ HM]]]]]]]. apply (m_one _ _ (HM T Mx) k). auto. }
+    split; auto. exact (mx_committed_keys s T Fs Mx c HP).
+  - intros Ht. destruct (mx_told_ok s T Fs Mx Ht) as [c [A [_ B]]]. exists c. auto.
+  - intros Ht evs' s' R' N'. eapply mixed_told_err; eauto.
+Qed.
+Print Assumptions C02_atomic_fallback.
+
+(* a locked mutation that currently holds a non-async lock makes the transaction mixed *)
+Theorem C02_fallback_when : forall evs s T k, run evs = Some s -> hasm s T -> no1pc s T ->
+  In k (lm s T) -> kget s T k = Locked 0 -> mixed s T.
+Proof.
+  intros evs s T k R Hh N1 Hk El. split; auto. split; auto. exists k. split; auto. apply (l_locked _ _ (linv_run _ _ R T)). auto.
+Qed.
+Print Assumptions C02_fallback_when.
 
 (* ---------------- C03: truthfulness of Commit's answer under faults ---------------- *)
 Theorem C03_truthful : forall evs s T, run evs = Some s -> hasm s T -> classic s T ->
@@ -176,6 +212,19 @@ Theorem C03_truthful_async : forall evs s T, run evs = Some s -> asyncm s T ->
   (F s T FTold = 3 -> (forall k c, kget s T k <> Committed c) /\ (forall r C ks, In (ERsSend r T C ks) (s_sent s) -> C = 0)).
 Proof. intros evs s T R Am. split; [exact (async_told_ok evs s T R Am) | exact (async_told_err evs s T R Am)]. Qed.
 Print Assumptions C03_truthful_async.
+
+Theorem C03_truthful_fallback : forall evs s T, run evs = Some s -> mixed s T ->
+  (F s T FTold = 1 -> exists c, kget s T (prim s T) = Committed c /\
+     (forall k, In k (lm s T) -> kget s T k = Committed c \/ exists m, kget s T k = Locked m) /\
+     forall evs' s', run_from s evs' = Some s' -> F s' T FTold = 1 /\ kget s' T (prim s' T) = Committed c) /\
+  (F s T FTold = 3 -> forall evs' s', run_from s evs' = Some s' -> no1pc s' T ->
+     F s' T FTold = 3 /\ forall k c, kget s' T k <> Committed c).
+Proof.
+  intros evs s T R Mx. pose proof (full_run _ _ R) as Fs. split.
+  - exact (mx_told_ok s T Fs Mx).
+  - intros Ht evs' s' R' N'. eapply mixed_told_err; eauto.
+Qed.
+Print Assumptions C03_truthful_fallback.
 
 Theorem C03_undetermined_only_if : forall evs s, run evs = Some s -> undetermined_only_if evs.
 Proof. exact undetermined_only_if_holds. Qed.
@@ -353,4 +402,30 @@ Example fallback_err_with_pending_commit_rejected : reject_of
     EPwSend 1 S0 10 [10; 11] true false (S0 + 2) 0 [11]; EPwDeliver 1 S0 [10; 11] (PwOk 0 0); EPwReply 1 S0 [10; 11] (PwOk 0 0);
     ETso (S0 + 3); ECmSend 1 S0 (S0 + 3) [10]; ECmDeliver 1 S0 (S0 + 3) [10] CmOk; ETold S0 TErr ] = Some (10%nat, R7_err_with_pending).
 Proof. vm_compute. reflexivity. Qed.
+(* the fallback hypothesis is satisfiable: async commit declined on key 11 (2PC lock), the owner's error is final ... *)
+Example fallback_mixed_told_err : exists s, run
+  [ ETso S0; EBegin 1 S0; ECommitCall S0 false; EMutations S0 10 [(10, OpPut); (11, OpPut)];
+    EPwSend 1 S0 10 [11] true false (S0 + 2) 0 []; EPwDeliver 1 S0 [11] (PwOk 0 0); EPwReply 1 S0 [11] (PwOk 0 0);
+    EPwSend 1 S0 10 [10] true false (S0 + 2) 0 [11]; EPwDeliver 1 S0 [10] (PwOk (S0 + 3) 0); ETold S0 TErr ] = Some s /\
+  mixed s S0 /\ F s S0 FTold = 3 /\ kget s S0 10 = Locked (S0 + 3) /\ kget s S0 11 = Locked 0.
+Proof.
+  eexists. split; [vm_compute; reflexivity |]. split; [| repeat split; vm_compute; congruence].
+  split; [unfold hasm; vm_compute; congruence |]. split.
+  - intros r ks m o Hi. vm_compute in Hi. repeat (destruct Hi as [Hi | Hi]; [inversion Hi; reflexivity |]). destruct Hi.
+  - exists 11. split; [vm_compute; auto | vm_compute; reflexivity].
+Qed.
+(* ... and the 2PC commit after the fallback *)
+Example fallback_mixed_told_ok : exists s, run
+  [ ETso S0; EBegin 1 S0; ECommitCall S0 false; ETso (S0 + 1); EMutations S0 10 [(10, OpPut); (11, OpPut)];
+    EPwSend 1 S0 10 [10] true false (S0 + 2) 0 [11]; EPwSend 1 S0 10 [11] true false (S0 + 2) 0 [];
+    EPwDeliver 1 S0 [10] (PwOk (S0 + 3) 0); EPwDeliver 1 S0 [11] (PwOk 0 0);
+    EPwReply 1 S0 [10] (PwOk (S0 + 3) 0); EPwReply 1 S0 [11] (PwOk 0 0); ETso (S0 + 5);
+    ECmSend 1 S0 (S0 + 5) [10]; ECmDeliver 1 S0 (S0 + 5) [10] CmOk; ECmReply 1 S0 (S0 + 5) [10] CmOk; ETold S0 TOk ] = Some s /\
+  mixed s S0 /\ F s S0 FTold = 1 /\ kget s S0 10 = Committed (S0 + 5) /\ kget s S0 11 = Locked 0.
+Proof.
+  eexists. split; [vm_compute; reflexivity |]. split; [| repeat split; vm_compute; congruence].
+  split; [unfold hasm; vm_compute; congruence |]. split.
+  - intros r ks m o Hi. vm_compute in Hi. repeat (destruct Hi as [Hi | Hi]; [inversion Hi; reflexivity |]). destruct Hi.
+  - exists 11. split; [vm_compute; auto | vm_compute; reflexivity].
+Qed.
 
